@@ -83,12 +83,11 @@ fn owning(variant: usize) -> bool {
     matches!(variant, 1 | 4 | 5)
 }
 
-#[cfg(any(feature = "v_libm", feature = "v_micromath"))]
-pub fn execute(_plan: &Plan, _ctx: &mut Ctx) {}
-
-#[cfg(not(any(feature = "v_libm", feature = "v_micromath")))]
 pub fn execute(plan: &Plan, ctx: &mut Ctx) {
     let variant = plan.get("variant").rem_euclid(6) as usize;
+    // rrtk built without std (alloc only) has the pointer and the Rc variant; the same histories run on those
+    #[cfg(any(feature = "v_libm", feature = "v_micromath"))]
+    let variant = variant % 2;
     let vname = VARIANTS[variant];
     let dropped = Arc::new(AtomicBool::new(false));
     let payload = Payload { v: plan.get("init"), dropped: dropped.clone() };
@@ -103,18 +102,24 @@ pub fn execute(plan: &Plan, ctx: &mut Ctx) {
             unsafe { Reference::from_ptr(p) }
         }
         1 => rc_ref_cell_reference(payload),
+        #[cfg(not(any(feature = "v_libm", feature = "v_micromath")))]
         2 => {
             let p = Box::into_raw(Box::new(RwLock::new(payload)));
             raw_rw = Some(p);
             unsafe { Reference::from_ptr_rw_lock(p as *const RwLock<Payload>) }
         }
+        #[cfg(not(any(feature = "v_libm", feature = "v_micromath")))]
         3 => {
             let p = Box::into_raw(Box::new(Mutex::new(payload)));
             raw_mx = Some(p);
             unsafe { Reference::from_ptr_mutex(p as *const Mutex<Payload>) }
         }
+        #[cfg(not(any(feature = "v_libm", feature = "v_micromath")))]
         4 => arc_rw_lock_reference(payload),
+        #[cfg(not(any(feature = "v_libm", feature = "v_micromath")))]
         _ => arc_mutex_reference(payload),
+        #[cfg(any(feature = "v_libm", feature = "v_micromath"))]
+        _ => unreachable!(),
     };
     let mut handles: Vec<Option<H>> = vec![Some(H::C(first))];
     let mut cell = plan.get("init");
